@@ -342,6 +342,25 @@ def gen_agg_program(rng):
                 p["rules"].append({"heads": [(out, [("var", 0), ("var", 21)])], "body": body})
                 prev_out.append(out)
                 continue
+            if sar >= 2 and rng.chance(1, 3):
+                # a USER-DEFINED aggregator with two bound arguments written in an order different from their column order:
+                # `agg it = argmin(cost, item) in offer(.., item, .., cost, ..)` must hand (cost, item) pairs to the aggregator
+                key = rng.choice([r for r in range(base) if p["rels"][r]["arity"] >= 1])
+                kar = p["rels"][key]["arity"]
+                kvars = list(range(kar))
+                ci, cc = sorted(rng.shuffle(list(range(sar)))[:2])          # item column < cost column
+                aargs = []
+                for j in range(sar):
+                    if j == ci: aargs.append(("b", 22))
+                    elif j == cc: aargs.append(("b", 20))
+                    elif rng.chance(1, 2): aargs.append(("k", ("var", rng.choice(kvars))))
+                    else: aargs.append("_")
+                body = [("cl", key, [("v", v) for v in kvars], []), ("agg", [21], "argmin", [20, 22], src, aargs)]
+                p["rels"].append({"arity": 2})
+                out = len(p["rels"]) - 1
+                p["rules"].append({"heads": [(out, [("var", rng.choice(kvars)), ("var", 21)])], "body": body})
+                prev_out.append(out)
+                continue
             key = rng.choice([r for r in range(base) if p["rels"][r]["arity"] >= 1])
             kar = p["rels"][key]["arity"]
             kvars = list(range(kar))
